@@ -190,30 +190,33 @@ mod v_wire_cksum {
         if kani::any() { Checksum::None } else { Checksum::Tx }
     }
 
-    /// XOR a non-zero corruption into one or two bytes of `buf` at symbolic positions chosen among
-    /// the positions whose bit is set in `allowed` (positions < 28).  Written as per-index
-    /// conditional updates so that bytes outside `allowed` stay concrete for the symbolic executor
-    /// (a symbolic TCP data offset or ICMPv6 type makes the parsers explore every option / message
-    /// parser: out of memory at 6 GB, measured).
-    fn corrupt(buf: &mut [u8], allowed: u32) {
+    /// XOR a non-zero corruption into one or two bytes of `buf` at symbolic positions: the first
+    /// among the positions whose bit is set in `allowed1`, the second (mask may be zero = single-byte
+    /// corruption) among `allowed2` (positions < 28).  Written as per-index conditional updates so
+    /// that bytes outside the masks stay concrete for the symbolic executor (a symbolic TCP data
+    /// offset or ICMPv6 type makes the parsers explore every option / message parser: out of memory
+    /// at 6 GB, measured).
+    fn corrupt2(buf: &mut [u8], allowed1: u32, allowed2: u32) {
         let p1: usize = kani::any();
         let p2: usize = kani::any();
         let m1: u8 = kani::any();
         let m2: u8 = kani::any();
-        kani::assume(p1 < 28 && p2 < 28 && (allowed >> p1) & 1 == 1 && (allowed >> p2) & 1 == 1);
+        kani::assume(p1 < 28 && p2 < 28 && (allowed1 >> p1) & 1 == 1 && (allowed2 >> p2) & 1 == 1);
         kani::assume(m1 != 0);
         // m2 == 0: single-byte corruption; the same position twice must not cancel
         kani::assume(p1 != p2 || m1 != m2);
         unrolled!(i in [0, 1, 2, 3, 4, 5, 6, 7, 8, 9, 10, 11, 12, 13, 14, 15, 16, 17, 18, 19, 20, 21, 22, 23, 24, 25, 26, 27] {
-            if (allowed >> i) & 1 == 1 {
-                if p1 == i {
-                    buf[i] ^= m1;
-                }
-                if p2 == i {
-                    buf[i] ^= m2;
-                }
+            if (allowed1 >> i) & 1 == 1 && p1 == i {
+                buf[i] ^= m1;
+            }
+            if (allowed2 >> i) & 1 == 1 && p2 == i {
+                buf[i] ^= m2;
             }
         });
+    }
+
+    fn corrupt(buf: &mut [u8], allowed: u32) {
+        corrupt2(buf, allowed, allowed);
     }
 
     /// bit mask of positions 0..n
@@ -810,6 +813,26 @@ mod v_wire_cksum {
         emit_valid_tcp(true, 0, 0, 0x000f, 0, 0x0f, 0, true, 5, true);
     }
 
+    // ---- thorough tier: every field of a small packet symbolic at once (probe 10c style)
+
+    // @harness props=C08 cfg=KW tier=t to=1800 mem=8 unwind=8 opts=nomem covers=1 funcs=wire::UdpRepr::emit;wire::UdpPacket::fill_checksum bounds=both_IPv4_addresses,_both_ports_and_4_payload_bytes_symbolic_(8_words)
+    #[kani::proof]
+    pub(crate) fn emit_valid_udp4_full() {
+        emit_valid_udp(false, 0xf, 0xf, 0xf, 0x0f, 4, false);
+    }
+
+    // @harness props=C08 cfg=KW tier=t to=1800 mem=8 unwind=8 opts=nomem covers=1 funcs=wire::Icmpv4Repr::emit;wire::Icmpv4Packet::fill_checksum bounds=echo_request/reply,_ident,_seq_and_8_data_bytes_symbolic_(6_words)
+    #[kani::proof]
+    pub(crate) fn emit_valid_icmpv4_full() {
+        emit_valid_echo(false, 0, 0, 0xf, 0xff, 8, false);
+    }
+
+    // @harness props=C08 cfg=KW tier=t to=1800 mem=8 unwind=8 opts=nomem covers=1 funcs=wire::TcpRepr::emit;wire::TcpPacket::fill_checksum bounds=no_options,_fixed_IPv4_addresses;_ports,_seq,_ack,_window,_control_flag,_ACK_presence_and_4_payload_bytes_symbolic_(9_words)
+    #[kani::proof]
+    pub(crate) fn emit_valid_tcp4_full() {
+        emit_valid_tcp(false, 0, 0, 0x3fff, 0, 0x0f, 0, true, 4, false);
+    }
+
     // transmit checksumming switched off: the crate documents "a consistently zeroed checksum"
     // @harness props=C08 cfg=KW tier=q to=600 mem=4 unwind=8 opts=nomem covers=1 funcs=wire::Ipv4Repr::emit;wire::Icmpv4Repr::emit;wire::Icmpv6Repr::emit;wire::UdpRepr::emit;wire::TcpRepr::emit bounds=per_protocol_Checksum::None_or_Checksum::Rx;_arbitrary_stale_buffer_contents;_ports/ident/seq_symbolic;_UDP/TCP/ICMP_over_a_symbolic_choice_of_IPv4_or_IPv6
     #[kani::proof]
@@ -924,12 +947,25 @@ mod v_wire_cksum {
 
     /// proto 1 = ICMP echo request (ICMPv4 / ICMPv6), 17 = UDP, 6 = TCP without options; 4 payload bytes
     fn rx_l4(proto: u8, v6: bool, smask: u32, dmask: u32, fmask: u32, arbitrary_field: bool, allowed: u32) {
-        rx_l4x(proto, v6, smask, dmask, fmask, arbitrary_field, allowed, 4, true);
+        rx_l4x(proto, v6, smask, dmask, fmask, arbitrary_field, allowed, allowed, 4);
     }
 
-    /// `with_lax == false`: the second (checksum-ignoring) parse is skipped and only
-    /// "accepted implies verifies" is asserted (halves the symbolic execution of heavy parsers)
-    fn rx_l4x(proto: u8, v6: bool, smask: u32, dmask: u32, fmask: u32, arbitrary_field: bool, allowed: u32, plen: usize, with_lax: bool) {
+    fn rx_l4x(proto: u8, v6: bool, smask: u32, dmask: u32, fmask: u32, arbitrary_field: bool, allowed: u32, allowed2: u32, plen: usize) {
+        let (ok, strict, lax) = rx_l4_eval(proto, v6, smask, dmask, fmask, arbitrary_field, allowed, allowed2, plen, true);
+        rx_obligations(ok, strict, lax);
+    }
+
+    /// the second (checksum-ignoring) parse is skipped and only "accepted implies verifies" is
+    /// asserted (halves the symbolic execution of heavy parsers)
+    fn rx_l4_nolax(proto: u8, v6: bool, smask: u32, dmask: u32, fmask: u32, allowed: u32, allowed2: u32, plen: usize) {
+        let (ok, strict, _) = rx_l4_eval(proto, v6, smask, dmask, fmask, false, allowed, allowed2, plen, false);
+        kani::cover!(!ok, "corruption detected by the reference");
+        kani::cover!(ok && strict, "parse Ok reached");
+        assert!(ok || !strict, "prop:c08_packet_with_bad_checksum_rejected");
+    }
+
+    /// returns (reference verdict, parse with checksums on is Ok, parse with checksums ignored is Ok)
+    fn rx_l4_eval(proto: u8, v6: bool, smask: u32, dmask: u32, fmask: u32, arbitrary_field: bool, allowed: u32, allowed2: u32, plen: usize, with_lax: bool) -> (bool, bool, bool) {
         let src = pick(SRC_FIX, smask);
         let dst = pick(DST_FIX, dmask);
         let caps = ChecksumCapabilities::default();
@@ -952,7 +988,7 @@ mod v_wire_cksum {
             seg[cks] = kani::any();
             seg[cks + 1] = kani::any();
         } else {
-            corrupt(seg, allowed);
+            corrupt2(seg, allowed, allowed2);
         }
         let field = be16(seg[cks], seg[cks + 1]);
         let (ok, strict, lax) = match proto {
@@ -972,7 +1008,7 @@ mod v_wire_cksum {
                 (ref_l4_ok(v6, &src, &dst, 6, seg), strict, if with_lax { tcp_parse_ok(v6, &src, &dst, seg, &lax_caps) } else { strict })
             }
         };
-        rx_obligations(ok, strict, lax);
+        (ok, strict, lax)
     }
 
     // @harness props=C08 cfg=KW tier=q to=600 mem=4 unwind=8 opts=nomem covers=2 funcs=wire::Icmpv4Repr::parse;wire::Icmpv4Packet::verify_checksum bounds=emitted_echo_request_(ident_symbolic,_4_data_bytes);_non-zero_XOR_mask_on_1_or_2_bytes_at_symbolic_positions_0..12
@@ -999,16 +1035,16 @@ mod v_wire_cksum {
         rx_l4(17, true, 0, 0, 0x3, false, upto(12));
     }
 
-    // @harness props=C08 cfg=KW tier=q to=600 mem=4 unwind=8 opts=nomem covers=2 funcs=wire::TcpRepr::parse;wire::TcpPacket::verify_checksum bounds=emitted_header-only_segment_(source_port_symbolic,_no_options);_non-zero_XOR_mask_on_1_or_2_bytes_at_symbolic_positions_0..20_except_12,_13_(data_offset_and_flags_are_read_as_one_word:_see_reject_invalid_tcp4_offset;_payload:_see_reject_invalid_tcp4_payload;_24-byte_segment_with_all_positions:_no_answer_in_600_s)
+    // @harness props=C08 cfg=KW tier=q to=600 mem=4 unwind=8 opts=nomem covers=2 funcs=wire::TcpRepr::parse;wire::TcpPacket::verify_checksum bounds=emitted_header-only_segment_(source_port_symbolic,_no_options);_non-zero_XOR_mask_on_1_byte_at_a_symbolic_position_0..20_except_12,_13_plus_optionally_1_byte_of_the_checksum_field_(two_free_positions:_no_answer_in_600_s;_bytes_12,_13:_reject_invalid_tcp4_offset;_payload:_reject_invalid_tcp4_payload)
     #[kani::proof]
     pub(crate) fn reject_invalid_tcp4() {
-        rx_l4x(6, false, 0, 0, 0x3, false, upto(20) & !(3 << 12), 0, true);
+        rx_l4x(6, false, 0, 0, 0x3, false, upto(20) & !(3 << 12), 3 << 16, 0);
     }
 
-    // @harness props=C08 cfg=KW tier=q to=600 mem=4 unwind=8 opts=nomem covers=2 funcs=wire::TcpRepr::parse;wire::TcpPacket::verify_checksum bounds=emitted_header-only_segment_(source_port_symbolic,_no_options);_non-zero_XOR_mask_on_1_or_2_bytes_at_symbolic_positions_0..20_except_12,_13
+    // @harness props=C08 cfg=KW tier=q to=600 mem=4 unwind=8 opts=nomem covers=2 funcs=wire::TcpRepr::parse;wire::TcpPacket::verify_checksum bounds=emitted_header-only_segment_(source_port_symbolic,_no_options);_non-zero_XOR_mask_on_1_byte_at_a_symbolic_position_0..20_except_12,_13_plus_optionally_1_byte_of_the_checksum_field
     #[kani::proof]
     pub(crate) fn reject_invalid_tcp6() {
-        rx_l4x(6, true, 0, 0, 0x3, false, upto(20) & !(3 << 12), 0, true);
+        rx_l4x(6, true, 0, 0, 0x3, false, upto(20) & !(3 << 12), 3 << 16, 0);
     }
 
     // @harness props=C08 cfg=KW tier=q to=600 mem=4 unwind=8 opts=nomem covers=2 funcs=wire::Icmpv4Repr::parse;wire::Icmpv4Packet::verify_checksum bounds=emitted_echo_request_(ident,_seq_symbolic,_4_data_bytes);_arbitrary_checksum_field
@@ -1050,14 +1086,14 @@ mod v_wire_cksum {
     // @harness props=C08 cfg=KW tier=q to=600 mem=4 unwind=8 opts=nomem covers=2 funcs=wire::TcpRepr::parse;wire::TcpPacket::verify_checksum bounds=emitted_segment_(source_port_symbolic,_no_options,_4_payload_bytes);_non-zero_XOR_mask_on_1_or_2_of_the_bytes_16,_17_(checksum_field),_20..24_(payload)
     #[kani::proof]
     pub(crate) fn reject_invalid_tcp4_payload() {
-        rx_l4x(6, false, 0, 0, 0x3, false, (3 << 16) | (0xf << 20), 4, true);
+        rx_l4x(6, false, 0, 0, 0x3, false, (3 << 16) | (0xf << 20), (3 << 16) | (0xf << 20), 4);
     }
 
     // data-offset byte corrupted (the payload may become options), optionally compensated in the checksum field
     // @harness props=C08 cfg=KW tier=q to=600 mem=6 unwind=8 opts=nomem covers=2 funcs=wire::TcpRepr::parse;wire::TcpPacket::verify_checksum;wire::TcpOption::parse bounds=emitted_segment_(source_port_symbolic,_no_options,_4_payload_bytes);_non-zero_XOR_mask_on_1_or_2_of_the_bytes_12,_13_(data_offset,_flags),_16,_17_(checksum_field);_only_accepted-implies-verifies_is_asserted
     #[kani::proof]
     pub(crate) fn reject_invalid_tcp4_offset() {
-        rx_l4x(6, false, 0, 0, 0x3, false, (3 << 12) | (3 << 16), 4, false);
+        rx_l4_nolax(6, false, 0, 0, 0x3, (3 << 12) | (3 << 16), (3 << 12) | (3 << 16), 4);
     }
 
     // ICMPv6 type byte corrupted: `Icmpv6Repr::parse` with a symbolic message type explores every
@@ -1075,6 +1111,20 @@ mod v_wire_cksum {
         kani::cover!(ok && buf[0] != 0x80, "type changed, checksum field compensates");
         kani::cover!(!ok, "corruption detected");
         assert!(got == ok, "prop:c08_icmpv6_verify_checksum_agrees_with_reference");
+    }
+
+    // thorough: two free corruption positions over a 24-byte TCP segment (quick tier: no answer in 600 s)
+    // @harness props=C08 cfg=KW tier=t to=1800 mem=8 unwind=8 opts=nomem covers=2 funcs=wire::TcpRepr::parse;wire::TcpPacket::verify_checksum bounds=emitted_segment_(source_port_symbolic,_no_options,_4_payload_bytes);_non-zero_XOR_mask_on_1_or_2_bytes_at_symbolic_positions_0..24_except_12,_13
+    #[kani::proof]
+    pub(crate) fn reject_invalid_tcp4_anypair() {
+        rx_l4x(6, false, 0, 0, 0x3, false, upto(24) & !(3 << 12), upto(24) & !(3 << 12), 4);
+    }
+
+    // thorough: ICMPv6 with the type byte corruptible, through the real `parse` (every NDISC / MLD parser is explored)
+    // @harness props=C08 cfg=KW tier=t to=1800 mem=16 unwind=8 opts=nomem covers=2 funcs=wire::Icmpv6Repr::parse;wire::Icmpv6Packet::verify_checksum;wire::NdiscRepr::parse;wire::MldRepr::parse bounds=emitted_echo_request_(ident_symbolic,_4_data_bytes);_non-zero_XOR_mask_on_1_or_2_of_the_bytes_0_(type),_1_(code),_2,_3_(checksum_field);_only_accepted-implies-verifies_is_asserted
+    #[kani::proof]
+    pub(crate) fn reject_invalid_icmpv6_anytype() {
+        rx_l4_nolax(1, true, 0, 0, 0x3, 0xf, 0xf, 4);
     }
 
     // RFC 8200 section 8.1: over IPv6 the UDP checksum is not optional; a datagram whose checksum
